@@ -260,8 +260,8 @@ fn direct_cases(rep: &mut Report, rng: &mut Rng, n: u64) {
         let len = match i % 6 {
             0 => r.range(0, 2) as usize,
             1 => r.range(1, 5) as usize,
-            2 | 3 => r.range(3, 12) as usize,
-            _ => r.range(8, 48) as usize,
+            2 => r.range(3, 12) as usize,
+            _ => r.range(8, 64) as usize,
         };
         let mut buf = r.bytes(len);
         if len > 0 && r.chance(1, 3) {
@@ -276,13 +276,14 @@ fn direct_cases(rep: &mut Report, rng: &mut Rng, n: u64) {
             _ => r.range(1, 26) as u32,
         };
         // position relative to the end of the buffer
-        let pos = match r.below(8) {
+        let pos = match r.below(11) {
             0 => 0,
             1 => len,
             2 => len + r.range(1, 6) as usize,
-            3 => len.saturating_sub(count as usize),        // guard holds with equality
-            4 => (len + 1).saturating_sub(count as usize),  // guard fails by one
-            5 => len.saturating_sub(1),
+            3 | 4 => len.saturating_sub(count as usize),    // guard holds with equality
+            5 => (len + 1).saturating_sub(count as usize),  // guard fails by one
+            6 => len.saturating_sub(1),
+            7 | 8 => r.below((len as u64 + 1).saturating_sub(count as u64).max(1)) as usize, // run inside the buffer
             _ => r.below(len as u64 + 1) as usize,
         };
         let range: u32 = match r.below(16) {
